@@ -25,7 +25,7 @@ TRUSTED = ["the terminal auto-completion path (stty available) is outside the mo
            "in the harness (it is False anyway without a terminal; forcing it avoids spawning stty for every prompt); hidden questions "
            "(getpass) are not asked",
            "int() of a typed index is modelled for ASCII digits (Model/Conv.v int_of_str); the answer alphabet has no other digits"]
-ASSUMPTIONS = ["defaults are valid indexes; choices hold no markup; confirmation patterns are case-insensitive prefixes",
+ASSUMPTIONS = ["defaults are valid indexes; choices hold no markup; confirmation patterns are prefixes, with and without the (?i) flag",
                "an empty entry of a choice question WITHOUT default is an invalid entry like any other (one attempt, one error line); "
                "the error it prints is the text of an AttributeError ('NoneType' object has no attribute 'replace') - the property "
                "says nothing about the wording, the model reproduces that one text for that one situation and any other unexpected "
@@ -93,6 +93,11 @@ def gen(rng, tier, info):
             for prefix in ("y", "j", "ok"):
                 for script in [[]] + [[a] for a in ["", " ", "y", "Y", "yes", "n", "no", "J", "ja", "okay", "OK", "o", " y ", "ny", "x"]] + [["x", "y"]]:
                     cases.append({"k": 1, "inter": inter, "d": d, "prefix": prefix, "script": script})
+    # patterns WITHOUT the (?i) flag: the case of the answer matters
+    for d in (0, 1):
+        for prefix in ("Y", "y", "Yes", "ok"):
+            for a in ["y", "Y", "yes", "Yes", "YES", "yES", "ok", "OK", "Ok", "n", " Y ", "", "x"]:
+                cases.append({"k": 1, "inter": 1, "d": d, "prefix": prefix, "script": [a], "cs": 1})
     n_conf = len(cases) - n1
     n2 = len(cases)
     for inter in (0, 1):
@@ -120,6 +125,8 @@ def wire(c):
         return [10, S(QTEXT), c["inter"], [S(x) for x in CHOICE_LISTS[c["cs"]]], c["multi"], _opt(c["d"], S), _opt(c["att"]),
                 [[S(l) for l in sc] for sc in [c["script"]] + ([c["again"]] if "again" in c else [])]]
     if c["k"] == 1:
+        if c.get("cs"):
+            return [13, S("Sure"), c["inter"], c["d"], 0, S(c["prefix"]), [S(l) for l in c["script"]]]
         return [11, S("Sure"), c["inter"], c["d"], S(c["prefix"]), [S(l) for l in c["script"]]]
     return [12, S("Name"), c["inter"], _opt(c["d"], S), [[S(a) for a in PLAIN_ACCEPT]] if c["val"] else [], _opt(c["att"]),
             [S(l) for l in c["script"]]]
@@ -131,7 +138,7 @@ def describe(c):
             QTEXT, CHOICE_LISTS[c["cs"]], c["d"], bool(c["multi"]), c["att"], bool(c["inter"]), c["script"],
             (", then asked again with %r" % c["again"]) if "again" in c else "")
     if c["k"] == 1:
-        return "ConfirmationQuestion('Sure', default=%s, pattern=(?i)^%s) interactive=%s typed %r" % (bool(c["d"]), c["prefix"], bool(c["inter"]), c["script"])
+        return "ConfirmationQuestion('Sure', default=%s, pattern=%s^%s) interactive=%s typed %r" % (bool(c["d"]), "" if c.get("cs") else "(?i)", c["prefix"], bool(c["inter"]), c["script"])
     return "Question('Name', default=%r)%s attempts=%r interactive=%s typed %r" % (
         c["d"], " with a validator accepting %r" % PLAIN_ACCEPT if c["val"] else "", c["att"], bool(c["inter"]), c["script"])
 
@@ -192,7 +199,7 @@ def run_impl(c):
             q.set_max_attempts(c["att"])
         return [_ask(q, c, sc) for sc in [c["script"]] + ([c["again"]] if "again" in c else [])]
     if c["k"] == 1:
-        q = ConfirmationQuestion("Sure", bool(c["d"]), "(?i)^" + c["prefix"])
+        q = ConfirmationQuestion("Sure", bool(c["d"]), ("^" if c.get("cs") else "(?i)^") + c["prefix"])
         return _ask(q, c, c["script"])
     q = Question("Name", c["d"])
     if c["val"]:
@@ -387,7 +394,7 @@ def oracle1(c, o):
         if nread != 1 or nprompt != 1 or nerr != 0:
             return "confirmation-reads-one-line-after-one-prompt"
         t = c["script"][0].strip()
-        exp = bool(c["d"]) if t == "" else t.lower().startswith(c["prefix"])
+        exp = bool(c["d"]) if t == "" else (t.startswith(c["prefix"]) if c.get("cs") else t.lower().startswith(c["prefix"]))
         if end != [0, int(exp)]:
             return "confirmation-answer"
         return None
@@ -430,7 +437,7 @@ def nontrivial_key(c, o):
     if c["k"] == 0 and c["inter"] and (_counts(c, o[0][2])[0] >= 1 or o[0][0][0] == 1 or c["multi"]):
         return [c[k] for k in ("cs", "multi", "d", "att", "script")] + [c.get("again")]
     if c["k"] == 1:
-        return [c["inter"], c["d"], c["prefix"], c["script"]]
+        return [c["inter"], c["d"], c["prefix"], c["script"], c.get("cs", 0)]
     if c["k"] == 2:
         return [2, c["inter"], c["d"], c["val"], c["att"], c["script"]]
     return None
